@@ -656,6 +656,13 @@ func wireValueIn(t *rapid.T, s ref.Schema, ts spec.TypeSpec, nullable bool) spec
 			for i := 0; i < n; i++ {
 				v.Elems = append(v.Elems, WireValue(t, *s.Items, *ts.Elem))
 			}
+			switch s.Items.Kind {
+			case "long", "double":
+				if (ts.Elem.K == "int64" || ts.Elem.K == "float64" || ts.Elem.K == "int") && Uniform(t, "hugeArray", 1200) == 0 {
+					// more than a megabyte of items in memory, a few drawn ones in turn
+					v.Rep = []int{131073, 140001}[Uniform(t, "hugeLen", 2)]
+				}
+			}
 		}
 	case "map":
 		switch Uniform(t, "mapcls", 6) {
